@@ -29,7 +29,7 @@ META = {
                    'combination of read_only / transient / key prefix from {"", a, ab, a/b, b} (string prefixes of one another) next to foreign objects.  '
                    'For every history each individual bucket mutation is a crash point (crash after mutation k, and put k failing): after each a fresh '
                    'read-only cassette lists every category and every discovered id must fetch completely; a concurrent reader sees the same '
-                   'intermediate states.  Oracles run on the mutation log and byte contents of the bucket. Also: a storage-class (infrequent access) threshold per cassette and key prefixes with a trailing slash.'),
+                   'intermediate states.  Oracles run on the mutation log and byte contents of the bucket. Also: a storage-class (infrequent access) threshold per cassette and key prefixes with a trailing slash. Leading-slash prefixes and categories; ids whose text order is unrelated to creation order.'),
     'level_note': 'Trusted: fake bucket mutation log with owner attribution, crash injection by mutation number. Completeness is claimed for saves only, not for the clean-up of a transient close. "full" / "metadata" are not used as key prefixes.',
     'rule': ('evaluation = one history, or one history re-run with one crash / failed put placed at one mutation; work item = one history plus all its single '
              'placements; non-trivial = at least one save mutated the bucket next to another cassette\'s or foreign objects; distinct = distinct event-log digest.'),
